@@ -13,7 +13,8 @@ import vlib
 PID = "C07"
 
 ALL_MUTS = ["trunc_before", "trunc_before_fix", "trunc_inside", "trunc_inside_fix", "len_0", "len_m1", "len_p1",
-            "len_max", "count_0", "count_p1", "count_max", "tag_unknown", "val_0", "val_max", "dup", "dup_fill", "dup_fill_empty", "empty"]
+            "len_max", "count_0", "count_p1", "count_max", "tag_unknown", "val_0", "val_max", "dup", "dup_fill", "dup_fill_empty", "empty",
+            "list_plus1", "list_minus1", "swap", "nest"]
 
 DECODERS = ["rtp", "rtcp", "stun", "dtls_record", "dtls_hsmsg", "dtls_clienthello", "dtls_serverhello", "dtls_hvr",
             "dtls_ske", "dtls_cert", "dtls_cke", "dtls_finished", "dcep", "sdp", "candidate"]
@@ -24,7 +25,7 @@ LIVE_ICE = ["turn_udp", "turn_tcp", "ice_udp", "ice_tcp"]
 LIVE_MEDIA = ["rtp_transport", "udptl", "pc_rtp"]
 LIVE_DTLS = ["dtls_server", "dtls_client"]
 LIVE_SCTP = ["sctp"]
-LIVE_PC = ["pc_sdp", "pc_candidate"]
+LIVE_PC = ["pc_sdp", "pc_candidate", "pc_webrtc"]
 
 ALL_LIVE = LIVE_ICE + LIVE_DTLS + LIVE_SCTP + LIVE_PC + LIVE_MEDIA
 
@@ -50,7 +51,7 @@ IN_PHASE = {
     ("sctp", "pre"): ["sctp.init", "sctp.init_ack"], ("sctp", "mid"): ["sctp.cookie_echo", "sctp.cookie_ack"],
     ("sctp", "est"): ["sctp.data", "sctp.sack", "sctp.heartbeat"],
 }
-ALWAYS_EFFECT = {"rtp_transport", "pc_sdp", "pc_candidate", "ice_udp", "turn_udp", "pc_rtp"}
+ALWAYS_EFFECT = {"rtp_transport", "pc_sdp", "pc_candidate", "ice_udp", "turn_udp", "pc_rtp", "pc_webrtc"}
 
 OK_RES = {"value", "error"}
 # inapplicable: the class has no concrete instance on the genuine message; unreachable: the history (an earlier input,
